@@ -324,6 +324,8 @@ RULES = [("tables", rule_tables), ("sides", rule_sides), ("only", rule_only), ("
 # make/unmake (placement, the castling bookkeeping that decides whether a rook is put back, undo = reverse of do) is decided here too
 RULES += engine.premise_rules("c03", ["revocation-table", "placement"])
 RULES += engine.premise_rules("c02", ["writeset", "inverse-seq", "probe-pair"])
+# the material count is count_ones of the board of the piece's own colour
+RULES += engine.premise_rules("c01", ["leaf-accessors"])
 
 
 def run(tier):
